@@ -105,7 +105,7 @@ def mw_unparse(head, cmws, mws, rows, ops):
 
 
 def mw_gen(tier, seed):
-    return [["gen", seed, 6000 if tier == "quick" else 400000]]
+    return [["gen", seed, 40000 if tier == "quick" else 600000]]
 
 
 def mw_shape(case, out):
@@ -231,10 +231,10 @@ PROPS["C16"] = {
             "harness answers each HttpRequest effect from the table and logs marks and requests in one sequence; non-trivial = at "
             "least one middleware attached; distinct = distinct (api, method, kinds of the client stack, kinds of the request stack, "
             "#requests at the shell, #enter marks, outcome class)",
-    "level_text": "Proof (20 theorems over the model M.Mw of Next::run, Client::send, Redirect::handle and the three sending APIs; all "
+    "level_text": "Proof (21 theorems over the model M.Mw of Next::run, Client::send, Redirect::handle and the three sending APIs; all "
                   "quantify over every stack, every server function Url -> answer, arbitrary parse/join, every attempt limit and "
                   "request): mw_order, mw_order_passThrough (enter c1..cn, enter r1..rm, SHELL, exit rm..c1), endpoint_once, "
-                  "endpoint_once_passThrough, endpoint_count (shell reached mult(stack) times for stacks of non-sending middleware), "
+                  "endpoint_once_inner_client, endpoint_once_passThrough, endpoint_count (shell reached mult(stack) times for stacks of non-sending middleware), "
                   "endpoint_zero_below_short/_fail, redirect_bounded (probes <= attempts, all body-less copies), redirect_stops, "
                   "redirect_final (+_url), C16_fixed (soundness against the oracle S.Mw.ok for the repaired redirect loop). FULL "
                   "statements refuted from concrete witnesses: redirect_relative false (redirect_relative_false; key "
@@ -244,7 +244,7 @@ PROPS["C16"] = {
                   "with C16_partial for the code as it is. Driver/Mw.lean runs the `fixed = false` variant against the code "
                   "(constant repoHasRedirectFix).",
     "level_note": "Trusted: Lean kernel + 3 standard axioms; hand model M.Mw (checked against the real crux_http through a real Core on "
-                  "6k (quick) / 400k (thorough) generated cases per run); url::Url::parse/join are opaque (their results for the case "
+                  "40k (quick) / 600k (thorough) generated cases per run); url::Url::parse/join are opaque (their results for the case "
                   "are supplied by the generator from the real crate and verified again by the harness); http-types Request::clone "
                   "(drops the body) and header map modelled as a list; the middleware kinds are those of harness/src/bin/mw.rs. "
                   "Client middleware can only be installed through the cfg(crux_verif) hook Http::verif_with_client_middleware "
@@ -256,9 +256,87 @@ PROPS["C16"] = {
     ],
 }
 
+
+# ---- C20 (engine cli) -------------------------------------------------------------------------------------------
+CLI_N = {"quick": 20, "thorough": 400}
+CLI_FIXTURES = 7          # bridge_echo cat_facts counter hello_world notes simple_counter tap_to_pay
+CLI_ORDERS = 120 + 6 + 2 + 1 + 1 + 1 + 1   # 5!, 3!, 2!, 1 … orders of the dependent crates of the seven fixtures (all are run)
+CLI_PROTO_TYPES = 18
+
+
+def cli_gen(tier, seed):
+    return [["gen", seed, CLI_N.get(tier, 20), "all-orders"]]
+
+
+def cli_proto_gen(tier, seed):
+    return [["gen-proto"]]
+
+
+def cli_shape(case, out):
+    # distinct = distinct (stream, fixture, variant / protocol type)
+    return tuple(case.split(" ", 3)[:3])
+
+
+def cli_nontrivial(case, out):
+    # non-trivial: the real CLI produced a registry / a container for the case
+    return out.startswith("ok ")
+
+
+def cli_counts(tier):
+    n = CLI_N[tier]
+    return (f"{tier}: {CLI_FIXTURES} originals + {CLI_FIXTURES}x{n} renumberings + {CLI_FIXTURES}x{n // 2} map-order shuffles + "
+            f"{CLI_FIXTURES}x{n // 2} mixed + {CLI_ORDERS} crate orders = {CLI_FIXTURES * (1 + 2 * n) + CLI_ORDERS} registry cases, "
+            f"{CLI_PROTO_TYPES} protocol-type cases")
+
+
+PROPS["C20"] = {
+    "streams": [Stream("reg", "cli", "cli", cli_gen, nontrivial=cli_nontrivial, shape=cli_shape),
+                Stream("proto", "cli", "cli", cli_proto_gen, nontrivial=cli_nontrivial, shape=cli_shape)],
+    "rule": "stream reg: for each of the 7 bundled rustdoc descriptions (bridge_echo, cat_facts, counter, hello_world, simple_counter, "
+            "and notes, tap_to_pay whose stored expectation is stale and is not used) the harness builds variants of the FULL "
+            "rustdoc JSON of the crate and of every dependent crate the CLI loads: id = as bundled; renum:<seed> = every item id, "
+            "wherever it occurs (values and map keys, found by a schema-agnostic serde pass), sent through a random injective map "
+            "per crate (three regimes: permutation of the ids in use / sparse range / whole u32 range incl. 0 and 2^32-1); "
+            "shuf:<seed> = JSON re-serialised with the keys of every object in random order and re-parsed; mix:<seed> = both plus "
+            "a random forced crate order; order:<perm> = the dependent crates loaded in that order (every permutation; the loop of "
+            "`run` is replayed with the next crate chosen by the harness). Every case runs the real private `run` twice on freshly "
+            "hashed maps (so item/summary/crate visiting orders differ between the two) plus the forced-order loop where one is "
+            "given; an observation is printed only if all runs agree (else `nondet`). The case carries the registry the real CLI "
+            "gives for the ORIGINAL fixture (the oracle demands equality with it, closedness, contiguous variant indices, "
+            "declaration order) and the abstract description of the VARIANT regenerated by the harness, from which the Lean model "
+            "M.Codegen.registry computes its registry (diffed with the real one). stream proto: one case per capability protocol "
+            "type (crux_http, crux_kv, crux_time, crux_platform, render): container traced by serde-reflection 0.4 from the real "
+            "type (as crux_core::typegen does) vs the container of that name in the registry the real CLI derives for a bundled "
+            "app using the capability. Counts — " + cli_counts("quick") + "; " + cli_counts("thorough") + " (`evaluations` below is the "
+            "measured total of the run, `tier` says which line applies). non-trivial = the real CLI produced a registry/container; "
+            "distinct = distinct (stream, fixture, variant or protocol type)",
+    "level_text": "Proof (formatter stage, for ANY edge relation, not only the fixtures): variant_indices, perm_invariant_partial, "
+                  "renumber_invariant_fmt, closed_partial, with the full statements kept as `def … : Prop`; the reachability filter "
+                  "(ascent rules of filter.rs) and the crate loading loop are modelled executably (M.Codegen.Crate.edges, load) and "
+                  "checked against the real CLI on every run, their invariance is checked by the oracle on the real code, not proved.",
+    "level_note": "Trusted: Lean kernel + 3 standard axioms; the hand model M.Codegen of mod.rs/filter.rs/formatter.rs/node.rs/item.rs/"
+                  "serde/case.rs (tied to the working tree on every run: the harness compiles /repo/crux_cli/src/codegen by path and "
+                  "diffs its registry with the model's for every variant); ascent's evaluation as a least fixpoint whose facts "
+                  "accumulate over `process` calls; the harness's projection of rustdoc JSON to the abstract description (relevant "
+                  "items, summaries and external crates they mention; serde attribute patterns copied from the code) — a wrong "
+                  "projection shows as a disagreement because the real CLI always gets the full JSON; serde-reflection's tracer "
+                  "(its output is one side of the protocol comparison). The bundled crux_*.json descriptions are snapshots: the "
+                  "protocol comparison is between them and the CURRENT real types. Hash-map iteration orders inside the real CLI "
+                  "cannot be forced, only re-drawn (two draws per case).",
+    "assumptions": [
+        "item ids are unique per crate and child id lists are duplicate free (checked on every case; rustdoc's index is a map)",
+        "identifiers are ASCII (case conversion of rename_all is modelled on ASCII letters)",
+        "a loader that cannot produce a requested crate fails the run (as the repository's test loader does)",
+    ],
+}
+ENGINE_TEXT_C20 = ("the real crux_cli::codegen (private run/Filter/format, compiled from /repo's working tree by path) on bundled rustdoc "
+                   "descriptions and their renumbered / re-ordered variants vs M.Codegen (Lean), oracle S.Codegen; serde-reflection "
+                   "trace of the real protocol types")
+
 # properties not claimed yet, with the reason shown in MANIFEST.not_applicable
 NOT_YET = {}
 ENGINE_TEXT = {
+    "cli": ENGINE_TEXT_C20,
     "mw": "real crux_http middleware stacks + Redirect through a real Core<App>, harness as shell (Rust) vs M.Mw (Lean), oracle S.Mw",
     "kv": "real crux_kv calls (capability + command API; Core and bincode Bridge hosts) vs M.Kv (Lean), oracle S.Kv",
     "conv": "differential driver for crux_time::protocol conversions (Rust) vs M.Conv (Lean), oracle S.Conv",
